@@ -12,7 +12,7 @@ from .C12 import ref_partition
 from .C13 import good_pred
 
 MANIFEST = {
-    'text': 'Held on every history executed: seeded histories of up to 12 container operations {compute metric (cycle / augmented mode), add metric (float / int, right and wrong length), compute timings, pick subset with 1-3 conditions over all six comparators and negative / decimal / exponent literals, compute chain timings, matching-cycles query, table export (all / subset / conditions)} are applied in lock-step to Cycles(use_cache=True), Cycles(use_cache=False) and an executable reference container built on the wrap partition; after every step every stored metric must have one entry per cycle and equal the model, subset and chain vectors must equal the model\'s (selected cycles numbered in order, chains = maximal runs), operations the model says must fail (chain metrics before a subset) must raise, and the two real containers must agree with each other. The run is inconclusive unless every operation kind and comparator was exercised often enough.',
+    'text': 'Held on every history executed: seeded histories of up to 12 container operations {compute metric (cycle / augmented mode), add metric (float / int, right and wrong length), compute timings, pick subset with 1-3 conditions over all six comparators and negative / decimal / exponent literals, compute chain timings, compute a user chain metric, matching-cycles query, table export (all / subset / conditions)} are applied in lock-step to Cycles(use_cache=True), Cycles(use_cache=False) and an executable reference container built on the wrap partition; after every step every stored metric must have one entry per cycle and equal the model, subset and chain vectors must equal the model\'s (selected cycles numbered in order, chains = maximal runs), operations the model says must fail (chain metrics before a subset) must raise, and the two real containers must agree with each other. The run is inconclusive unless every operation kind and comparator was exercised often enough.',
     'note': 'Trusted: numpy, pandas (tables). A selection matching no cycle has no chains: raising or returning an empty subset are both accepted provided the metric store stays coherent and the next selection is exact. Known finding K1 (augmented segment: slice cache vs label lookup use different definitions when the previous cycle is not monotone through 1.5pi / has no trough sample) is recognised by computing both definitions in the model.',
     'technique': 'history exploration with an executable reference model run in lock-step with the real container (cache on and off)',
 }
@@ -221,8 +221,11 @@ def gen_history(rng, ref):
             if kind == 'pick':
                 in_use.clear()
                 in_use.update(c[0] for c in conds)
-        elif r < .86:
+        elif r < .80:
             h.append({'op': 'chain_timings'})
+        elif r < .86:
+            h.append({'op': 'chain_metric', 'name': 'c%d' % (len(h) + 1), 'func': gens.pick(rng, ['max', 'mean', 'sum', 'len', 'first', 'last']),
+                      'vals': np.round(rng.standard_normal(n), 1), 'dtype': 'int' if rng.random() < .3 else None})
         else:
             h.append({'op': gens.pick(rng, ['table_all', 'table_subset'])})
     return h
@@ -258,6 +261,7 @@ def run_history(ctx, phase, hist, case):
             V('container-partition', 'container (%s) found %d cycles, the wrap partition has %d' % (which, cy.ncycles, K), case)
             return False
     aug_metrics = {}   # name -> vals/func for augmented metrics (two definitions)
+    chain_user = set()  # user chain metrics requested while the selection was empty (may or may not exist)
     picked = False
     for step, op in enumerate(hist):
         kind = op['op']
@@ -303,6 +307,22 @@ def run_history(ctx, phase, hist, case):
                 expect = 'ok-or-raise'
             else:
                 ref.chain_timings()
+        elif kind == 'chain_metric':
+            if not picked:
+                expect = 'raise'
+            elif ref.empty:
+                expect = 'ok-or-raise'
+                chain_user.add(op['name'])
+            else:
+                out = np.full(K, np.nan)
+                for r_ in ref.runs():
+                    s0, e0 = ref.segs[r_[0]][0], ref.segs[r_[-1]][1]
+                    out[r_] = FUNCS[op['func']](op['vals'][s0:e0])
+                if op['dtype'] == 'int':
+                    out[np.isnan(out)] = -1
+                    out = out.astype(int)
+                ref.metrics[op['name']] = out
+                ctx.count('user_chain_metrics')
         # ---- real transitions
         results = {}
         for which, cy in real.items():
@@ -319,6 +339,8 @@ def run_history(ctx, phase, hist, case):
                         out = cy.pick_cycle_subset([cond_str(c) for c in op['conds']])
                     elif kind == 'chain_timings':
                         out = cy.compute_chain_timings()
+                    elif kind == 'chain_metric':
+                        out = cy.compute_chain_metric(op['name'], op['vals'].copy(), FUNCS[op['func']], dtype=(int if op['dtype'] == 'int' else None))
                     elif kind == 'match':
                         conds = [cond_str(c) for c in op['conds']]
                         out = np.asarray(cy.get_matching_cycles(conds if len(conds) > 1 or step % 2 else conds[0])).astype(bool)
@@ -400,7 +422,7 @@ def run_history(ctx, phase, hist, case):
                     V('metric-value:' + cls, '%s [%s]: metric %r = %s, model says %s (first differing cycle %s)'
                       % (where, which, name, np.asarray(m[name]).tolist()[:10], np.asarray(want).tolist()[:10], bad[:1].tolist()), case)
                     return False
-            extra = set(m) - set(ref.metrics) - set(aug_metrics) - (skip if ref.empty else set())
+            extra = set(m) - set(ref.metrics) - set(aug_metrics) - (skip if ref.empty else set()) - chain_user
             if extra:
                 V('metric-unexpected', '%s [%s]: unexpected metrics %s in the store' % (where, which, sorted(extra)), case)
                 return False
@@ -495,7 +517,7 @@ def run_shard(ctx):
 def finalize(agg, tier):
     c = agg['counters']
     r = []
-    for k in ['compute', 'add', 'timings', 'pick', 'chain_timings', 'match', 'table_all', 'table_subset', 'table_conditions']:
+    for k in ['compute', 'add', 'timings', 'pick', 'chain_timings', 'chain_metric', 'match', 'table_all', 'table_subset', 'table_conditions']:
         if c.get('op:' + k, 0) < 100:
             r.append('operation %s executed %d times (need >= 100)' % (k, c.get('op:' + k, 0)))
     for k in OPS:
